@@ -75,6 +75,8 @@ type twin struct {
 	// other denominations that reach validators' rewards pools (native MsgDepositValidatorRewardsPool by depositor):
 	// one sorts before the bond denom, one after it
 	depositor *itutiltypes.TestAccount
+	// the sender (tx origin) of the Ethereum transaction the operation being generated will travel in
+	curSender *itutiltypes.TestAccount
 	denomIDs  map[string]int // denomination -> number in the Coq terms (bond denom = 0)
 	// the twins differ: every later comparison would only repeat the first difference, the sequence is abandoned
 	diverged bool
@@ -975,6 +977,31 @@ func (tw *twin) genOpKind(r *Rng, caller *itutiltypes.TestAccount, kind int) cpc
 			}
 		}
 		a, ac := tw.pickAmount(r, meAcc, common.BytesToAddress(tw.bondedVals()[0].addr))
+		if r.Chance(35) {
+			// around what the caller can afford only AFTER its rewards have been withdrawn: balance + W, W = the rewards
+			// transfer() withdraws first (validators whose bond-denom reward reaches the minimum)
+			q := B.QueryCtx()
+			bal := B.App.BankKeeper.GetBalance(q, meAcc, tw.bond).Amount.BigInt()
+			w := big.NewInt(0)
+			if rw, err := rewardsOf(B, q, meAcc); err == nil {
+				min := new(big.Int).Exp(big.NewInt(10), big.NewInt(15), nil)
+				for _, x := range rw.Rewards {
+					if t := x.Reward.AmountOf(tw.bond).TruncateInt().BigInt(); t.Cmp(min) >= 0 {
+						w.Add(w, t)
+					}
+				}
+			}
+			switch r.Intn(4) {
+			case 0:
+				a, ac = Badd(bal, 1), "balance+1"
+			case 1:
+				a, ac = new(big.Int).Add(bal, w), "balance+rewards"
+			case 2:
+				a, ac = Badd(new(big.Int).Add(bal, w), 1), "balance+rewards+1"
+			default:
+				a, ac = new(big.Int).Add(bal, new(big.Int).Rsh(w, 1)), "balance+rewards/2"
+			}
+		}
 		return cpcOp{method: "transfer", class: tc + "/" + ac, payload: tw.pack("transfer", to, a),
 			coqCall: fmt.Sprintf("CTransfer %s %s", zOf(to.Bytes()), CqZ(a)),
 			translate: func(dry sdk.Context, c sdk.AccAddress) ([]scriptEntry, bool) {
@@ -1002,6 +1029,19 @@ func (tw *twin) genOpKind(r *Rng, caller *itutiltypes.TestAccount, kind int) cpc
 	default:
 		return tw.genSignedWithdraw(r, caller)
 	}
+}
+
+// thirdParty is the delegator of a message that is not the caller's own: often (60%) the ORIGIN of the transaction when the
+// caller is a contract - the one account besides the caller that a precompile could mistake for "the one who acts" -,
+// otherwise any other keyed account
+func (tw *twin) thirdParty(r *Rng, not common.Address) *itutiltypes.TestAccount {
+	if tw.curSender != nil && tw.curSender.GetEthAddress() != not && r.Chance(60) {
+		if tw.side != nil {
+			tw.side.Count("signed:delegator-is-tx-origin-not-caller")
+		}
+		return tw.curSender
+	}
+	return tw.otherKeyed(r, not)
 }
 
 func (tw *twin) otherKeyed(r *Rng, not common.Address) *itutiltypes.TestAccount {
@@ -1043,7 +1083,7 @@ func (tw *twin) genSignedStaking(r *Rng, caller *itutiltypes.TestAccount) cpcOp 
 	case x < 65:
 		chain, class = Badd(tw.chainID, 1), "wrong-chain-id"
 	case x < 77: // a third party's message, correctly signed by that third party
-		signer, class = tw.otherKeyed(r, me), "delegator-not-caller"
+		signer, class = tw.thirdParty(r, me), "delegator-not-caller"
 		msg.Delegator = signer.GetEthAddress()
 	case x < 84:
 		class = "garbage-signature"
@@ -1137,7 +1177,7 @@ func (tw *twin) genSignedWithdraw(r *Rng, caller *itutiltypes.TestAccount) cpcOp
 	case x < 74:
 		chain, class = Badd(tw.chainID, 1), "wrong-chain-id"
 	case x < 88:
-		signer, class = tw.otherKeyed(r, me), "delegator-not-caller"
+		signer, class = tw.thirdParty(r, me), "delegator-not-caller"
 		msg.Delegator = signer.GetEthAddress()
 		if fromC != "FromAll" { // a validator the third party does have rewards at: if the message is accepted, it shows
 			v, _ = tw.pickOwnVal(r, signer.GetCosmosAddress())
@@ -1305,7 +1345,7 @@ func TestDriverStaking(t *testing.T) {
 				if codes[0] != codes[1] {
 					side.Hit("C11/staking/twin-harness-native-message-diverged", "the same native message had different outcomes on the twin chains", nil)
 				}
-			case k < 82:
+			case k < 76:
 				tw.cpcStep(r, side, cases, &idx, seq, step)
 			default: // several precompile calls in one transaction
 				tw.multiStep(r, side, cases, &idx, seq, step)
@@ -1355,8 +1395,13 @@ func (tw *twin) cpcStep(r *Rng, side *Sidecar, cases *CasesFile, idx *int, seq, 
 	}
 	var op cpcOp
 	replay := false
+	tw.curSender = sender
 	if len(tw.signed) > 0 && r.Chance(8) { // replay an earlier valid signed message, by whoever the caller is now
 		u := tw.signed[r.Intn(len(tw.signed))]
+		// preferably one that the sender of this transaction once submitted itself (public call data)
+		for tries := 0; tries < 4 && u.caller != sender.GetEthAddress(); tries++ {
+			u = tw.signed[r.Intn(len(tw.signed))]
+		}
 		replay = true
 		op = cpcOp{method: u.method, class: "replay", payload: u.payload, coqCall: u.call, rec: u.rec, signedDelegator: &u.delegator}
 		owner := u.caller
